@@ -74,6 +74,14 @@ def materialize(cls, defects, names):
         elif df in ("coverage_zero", "coverage_above_one", "coverage_negative"):
             kw.setdefault(cons_key, [[(list(G.edges())[0])]])
             kw[cov_key] = {"coverage_zero": 0, "coverage_above_one": 1.5, "coverage_negative": -0.5}[df]
+        elif df in ("covlen_zero", "covlen_above_one", "covlen_without_length_attr", "covlen_with_coverage"):
+            # length coverage (DAG models): outside (0,1], without a length attribute, or together with an edge coverage
+            kw.setdefault(cons_key, [[(list(G.edges())[0])]])
+            kw["subpath_constraints_coverage_length"] = {"covlen_zero": 0, "covlen_above_one": 1.5}.get(df, 0.5)
+            if df != "covlen_without_length_attr":
+                kw["length_attr"] = "length"
+            if df == "covlen_with_coverage":
+                kw["subpath_constraints_coverage"] = 0.5
         elif df == "k_zero":
             kw["k"] = 0
         elif df == "k_negative":
